@@ -26,6 +26,7 @@ META["text"] += ' Sample numbers are re-derived from the seed and the position a
 META["text"] += ' R4 also borrows C07.R6 (both samples sorted in place by the same selection-order key).'
 META["text"] += ' R1 also borrows C07.R2 and C07.R4: the selection reads styles and sample numbers only, not the `sampled` flags an earlier round wrote.'
 META["text"] += " R4 also borrows the threshold filter of C06.R4 (a card within one round's threshold is within the next round's)."
+META["text"] += ' R4 also: the order recorded when the cards are looked up is the draw order (= C07.R6 selection order).'
 
 
 def _norm_empty(e):
